@@ -126,9 +126,7 @@ class OptimizationGroup:
         result_dataset["weighted_residual"] = result_dataset["residual"]
         result_dataset["residual"] = result_dataset["residual"] / weight
         if "weight" not in result_dataset:
-            if weight.shape != result_dataset.data.shape:
-                weight = weight.T
-            result_dataset["weight"] = (result_dataset.data.dims, weight)
+            result_dataset["weight"] = (result_dataset["residual"].dims, weight)
 
     def create_result_data(self) -> dict[str, xr.Dataset]:
         """Create resulting datasets.
